@@ -11,10 +11,14 @@ ID = 'C17'
 PROPS_V = 'C17/Props.v'
 LEVEL = 'proof'
 TRUSTED = [
-    'hand-written models C17/Model.v (reject_model, maskinterp1_model, aesthetics_model, median_reflect_model, '
-    'skymask_row_model) -- transliterations tied to the code by the correspondence run only (no translator)',
-    'harness glue: scalar sigma / missing inmask / missing outmask expanded to per-point values; n-D arrays cut into '
-    '1-D lines along axis (pydl axis k = numpy axis ndim-1-k); float samples of the median scaled to integers',
+    'translate/c17.py: Python ast -> Gallina for the statements it recognises (limit comparisons and badness terms, inmask / '
+    'sticky products, grow loop bounds and clamps, qdone, skymask flag names / cast / tests / width / smooth arguments / test / '
+    'final product, const rules of djs_maskinterp1); fail-closed, `recognised` recorded per generated file',
+    'the hand-written remainder of C17/Model.v (fold / scatter plumbing, numpy.interp as `interp`, smooth as `smooth_model`, '
+    'medfilt / medfilt2d as zero-padded window medians, numpy negative-index wrap) -- tied to the code by the correspondence run',
+    'harness glue: scalar sigma / missing inmask / missing outmask expanded to per-point values; n-D reject arrays flattened '
+    '(grow = 0); float samples of the median scaled to integers; numpy.moveaxis line lists passed along and compared inside Coq '
+    'with the lists derived from (shape, axis)',
     'numpy.interp = clamped piecewise-linear interpolation, scipy.signal.medfilt/medfilt2d = zero-padded window '
     'median, ndarray.astype(uint64) = reduction mod 2^64 (modelled by their meaning; exercised on every run)',
     'SPPIXMASK bit numbers: the packaged tests/t/testMaskbits.par has no SPPIXMASK group, so the runner appends one '
@@ -30,8 +34,9 @@ ASSUMPTIONS = [
     'not used; grow > 0 only for 1-D data (the routine indexes axis 0 only)',
     'djs_maskinterp: xval distinct within every line; pydl numbers axes the IDL way (axis 0 = last numpy axis)',
     "aesthetics: inverse variances >= 0; method 'mean' with at least one good pixel; method 'damp' is not in the property",
-    'djs_median(boundary=reflect): odd widths with ceil(width/2) <= array length are covered by S; even widths '
-    '(scipy rejects even kernels) and shorter arrays are only required to agree with the model (an exception)',
+    'djs_median(boundary=reflect): S is total -- width 1 returns the input, even widths and arrays/images with fewer than '
+    'ceil(width/2) samples per axis (but more than one sample) must raise ValueError, everything else is the reflected-window '
+    'median; 2-D images with a single row or column shorter than the padding (numpy broadcasts them) are not generated',
     'skymask: a mask pixel is flagged when its stored integer value (two\'s complement) shares a bit with a flag value',
     'floating point: values compared at 1e-12 relative; thresholds are either hit exactly (exact dyadic arithmetic) or '
     'missed by >= 1e-6 relative',
@@ -358,9 +363,11 @@ def gen_median(rng, ctx, k):
         shape = [rng.randint(1, 12)]
         width = rng.choice([1, 2, 3, 3, 4, 5, 5, 6, 7, 7, 8, 9, 9])
     else:
-        width = rng.choice([1, 3, 3, 5])
+        width = rng.choice([1, 3, 3, 5, 5, 2, 4, 7])
         pad = (width + 1) // 2
         shape = [rng.randint(pad, pad + 4), rng.randint(pad, pad + 4)]
+        if rng.random() < 0.15 and pad > 2:
+            shape[rng.randrange(2)] = rng.randint(2, pad - 1)      # too short for the padding (not 1: that broadcasts)
     n = 1
     for s_ in shape:
         n *= s_
@@ -376,8 +383,11 @@ def median_term(c, r):
         return '(CMedian %s %s %s)' % (zlist(xs), zl(c['width']), e)
     nr, nc = c['shape']
     rows = C.coq_list([zlist(xs[i * nc:(i + 1) * nc]) for i in range(nr)])
-    ok = r['ok'] if 'ok' in r else []
-    ex = C.coq_list([zlist([int(Fr(v) * 4) for v in ok[i * nc:(i + 1) * nc]]) for i in range(len(ok) // nc)])
+    if 'ok' in r:
+        ok = r['ok']
+        ex = '(M2Ok %s)' % C.coq_list([zlist([int(Fr(v) * 4) for v in ok[i * nc:(i + 1) * nc]]) for i in range(len(ok) // nc)])
+    else:
+        ex = 'M2Err' if r.get('err') == 'ValueError' else 'M2Other'
     return '(CMedian2 %s %s %s)' % (rows, zl(c['width']), ex)
 
 
